@@ -1,4 +1,6 @@
 """C18: HTTP service - JSON escaping taint rule, endpoint -> workspace operation, response construction, lock handling (DESIGN §3 C18)."""
+import re
+
 from facts import find_hir, strip
 
 LEVEL = "other"
@@ -148,7 +150,11 @@ def find_escapers(F):
                     pats.append(p.get("v"))
         if '"' in pats and "\\" in pats and "\\\"" in lits and "\\\\" in lits:
             # control characters: a range/guard arm producing \\u escapes
-            if any(isinstance(v, str) and v.startswith("\\u") for v in lits) or any(isinstance(v, str) and "\\u{:04x}" in v.lower() for v in lits):
+            hexfmt = find_hir(h["body"], lambda x: x.get("k") == "Call" and (x.get("callee") or "").endswith(("Argument::<'_>::new_lower_hex", "Argument::<'_>::new_upper_hex")))
+            templ = [x.get("v") for x, _ in find_hir(h["body"], lambda x: x.get("k") == "Lit" and x.get("lit") == "other" and str(x.get("v", "")).startswith("ByteStr(["))]
+            # `write!(out, "\\u{:04x}", ch as u32)`: a hexadecimal argument behind a literal `\u` (bytes 92, 117) with a width of 4 in the compiled template
+            hex_escape = bool(hexfmt) and any(re.search(r"\b92, 117\b", v) and re.search(r"\b4\b", v.split("92, 117", 1)[1]) for v in templ)
+            if any(isinstance(v, str) and v.startswith("\\u") for v in lits) or any(isinstance(v, str) and "\\u{:04x}" in v.lower() for v in lits) or hex_escape:
                 out.add(n)
     return out
 
@@ -250,9 +256,14 @@ def run(F, rep, tier):
                     rep.ok(r3, "route:%s" % route, "%d response(s) wrapped in actix Json<..> (serde)" % len(js))
                 else:
                     rep.violation(r3, "route:%s" % route, "handler builds neither a Json<..> nor an explicit body: response construction not recognised", "%s:%s" % (hh["file"], hh["line"]))
+            # locals of the handler that hold (parts of) the body: judged where they are bound
+            henv = {}
+            for st, _ in find_hir(hh["body"], lambda x: x.get("k") == "LetStmt" and "e" in x and x.get("p", {}).get("k") == "Bind"):
+                t.bad = []
+                henv[st["p"]["name"]] = t.safe(st["e"], henv)
             for i, b in enumerate(bodies):
                 t.bad = []
-                if t.safe(b["args"][0], {}):
+                if t.safe(b["args"][0], henv):
                     rep.ok(r3, "route:%s:body%d" % (route, i), "serde / jsonify text only")
                 else:
                     rep.violation(r3, "route:%s:body%d" % (route, i), "response body contains raw text: %s" % (t.bad[0][1] if t.bad else "unrecognised expression"),
